@@ -9,20 +9,20 @@ Require Import QzCron.CsmModel QzCron.CsmSpec QzCron.NextFire QzCron.NftProofs.
 Open Scope Z_scope.
 
 Theorem C06_nft_total : forall f z prev,
-  wf_fields f = true -> wf_zone z = true -> 0 <= prev <= max_nanos ->
+  wf_fields f = true -> wf_zone z = true -> min_nanos <= prev <= max_nanos ->
   next_fire_time_zone f z prev <> ModelError.
 Proof. exact nft_zone_total_wf. Qed.
 Print Assumptions C06_nft_total.
 
 Theorem C06_nft_total_fixed : forall f off prev,
-  wf_fields f = true -> -93600 <= off <= 93600 -> 0 <= prev <= max_nanos ->
+  wf_fields f = true -> -93600 <= off <= 93600 -> min_nanos <= prev <= max_nanos ->
   next_fire_time f off prev <> ModelError.
 Proof. intros f off prev Hwf Hoff. exact (nft_fixed_total f Hwf off Hoff prev). Qed.
 Print Assumptions C06_nft_total_fixed.
 
 (* either an error (expiry) or a value strictly greater than prev *)
 Theorem C06_nft_strictly_after : forall f z prev ns,
-  wf_fields f = true -> wf_zone z = true -> 0 <= prev <= max_nanos ->
+  wf_fields f = true -> wf_zone z = true -> min_nanos <= prev <= max_nanos ->
   next_fire_time_zone f z prev = Fire ns -> prev < ns <= max_nanos.
 Proof. intros f z prev ns Hwf Hz Hp H. exact (proj1 (proj2 (nft_zone_sound_wf f z prev ns Hwf Hz Hp H))). Qed.
 Print Assumptions C06_nft_strictly_after.
